@@ -33,11 +33,12 @@ def run(ctx):
             ob_failed.append("correspondence shard %s did not evaluate: %s" % (shard, lg[-600:]))
         xobs = g.load_jsonl(os.path.join(ctx.work, "obs.jsonl"))
         cobs = g.load_jsonl(os.path.join(ctx.work, "ct.jsonl"))
+        mobs = g.load_jsonl(os.path.join(ctx.work, "mixed.jsonl"))
         for shard in meta["shards"]:
             r = res.get(shard) or {}
             kind, idx = shard.split("_")[0], int(shard.split("_")[1].split(".")[0])
-            src = xobs if kind == "xcases" else cobs
-            base = idx * meta["shard_size"] if kind == "xcases" else 0
+            src = {"xcases": xobs, "ctcases": cobs, "mcases": mobs}[kind]
+            base = {"xcases": idx * meta["shard_size"], "ctcases": 0, "mcases": idx}[kind]
             for ident, acc in (("M", model_bad), ("P", prop_bad)):
                 for i in (ctx.parse_nlist(r.get(ident)) or []):
                     case = src[base + i] if base + i < len(src) else {"index": base + i}
@@ -47,6 +48,8 @@ def run(ctx):
     def key_of(kind, case):
         if kind == "xcases":
             return case.get("leaf", "?")
+        if kind == "mcases":
+            return "mixed-load-" + ("upstream" if case.get("upstream") else "direct")
         return "conntrack-" + str(case.get("kind"))
 
     seen = set()
@@ -62,6 +65,12 @@ def run(ctx):
                         n, k, case.get("name"), trace_text(case), {a: b for a, b in case.get("in_flight", {}).items() if b},
                         case.get("total"), case.get("listener_active"), case.get("dialer_active")))
             ctx.violation("accounting:" + k, {"name": case.get("name"), "kind": "exchange"}, True, what)
+        elif kind == "mcases":
+            ctx.violation("accounting:" + k, {"kind": "mixed", "name": case.get("name")}, True,
+                          "%d connections / %d requests of mixed kinds against one proxy: at quiescence in_flight=%s total=%s (requests %d) "
+                          "listener_active=%s dialer_active=%s %s" % (case.get("conns"), case.get("requests"),
+                                                                    {a: b for a, b in case.get("in_flight", {}).items() if b}, case.get("total"),
+                                                                    case.get("requests"), case.get("listener_active"), case.get("dialer_active"), case.get("err")))
         else:
             ctx.violation("accounting:" + k, {"ct": case, "kind": "conntrack"}, True,
                           "concurrent Close calls: %s" % json.dumps(case))
@@ -99,7 +108,7 @@ def run(ctx):
         ]),
         "theorems": info["theorems"],
         "unchecked_obligations": ob_failed,
-        "evaluations": int(meta.get("exchanges", 0)) + int(meta.get("conntrack_close_calls", 0)),
+        "evaluations": int(meta.get("exchanges", 0)) + int(meta.get("conntrack_close_calls", 0)) + int(meta.get("mixed_requests", 0)),
         "distinct_nontrivial": int(meta.get("distinct_valuations", 0)),
         "rule": "exchange cases: one scripted scenario per leaf of the path tree x request kinds / statuses / framings, each against a "
                 "fresh in-process proxy with its own Prometheus registry; distinct_nontrivial = distinct branch valuations of "
@@ -108,7 +117,8 @@ def run(ctx):
         "traces_validated_against_impl": int(meta.get("cases", 0)),
         "model_mismatches": len(model_bad),
         "property_failures_on_impl": len(prop_bad),
-        "distribution": {"leaves": meta.get("leaves"), "conntrack_cases": meta.get("conntrack_cases"),
+        "distribution": {"leaves": meta.get("leaves"), "conntrack_cases": meta.get("conntrack_cases"), "mixed_runs": meta.get("mixed_runs"),
+                         "mixed_requests": meta.get("mixed_requests"), "mixed_connections": meta.get("mixed_connections"),
                          "path_tree_valuations_proved": 311040},
         "samples": [{"exchange_cases": meta.get("samples")}],
     }
